@@ -240,6 +240,12 @@ void conc_free(void * p)
     free(p);        /* ASan reports a second free of the same block */
 }
 
+/* `cbreent` (before `start`): the clear callback calls back into the library - it tries to
+ * lock a weak pointer to the allocation that is being torn down (the shared-from-this idiom:
+ * the object holds a weak reference to itself).  The lock must fail promptly. */
+static int cb_reent, cb_owner;
+static cstl_weak_ptr_t cbw;
+
 static void clear_cb(void * p, void * priv)
 {
     (void)priv;
@@ -247,6 +253,15 @@ static void clear_cb(void * p, void * priv)
     n_clear++;
     performed("clear mem", 0);
     memset(p, 0x5a, MEMSZ);     /* ASan reports if the memory is already freed */
+    if (cb_reent) {
+        cstl_shared_ptr_t tmp;
+        cstl_shared_ptr_init(&tmp);
+        cstl_weak_ptr_lock(&cbw, &tmp);
+        if (cstl_shared_ptr_get(&tmp) != NULL) {
+            cb_owner = 1;       /* an owner of memory that is being cleared */
+        }
+        cstl_shared_ptr_reset(&tmp);
+    }
 }
 
 /* ------------------------------------------------------------------ */
@@ -344,6 +359,8 @@ static void a_reset(void)
     setup_mallocs = 0;
     data_ptr = mem_ptr = NULL;
     n_clear = n_freemem = n_freedata = n_yield_calls = 0;
+    cb_reent = cb_owner = 0;
+    cstl_weak_ptr_init(&cbw);
 }
 
 static int parse_op(const char * w, struct op * o)
@@ -443,6 +460,9 @@ static void setup(void)
             }
         }
     }
+    if (cb_reent) {
+        cstl_weak_ptr_from(&cbw, &first);
+    }
     cstl_shared_ptr_reset(&first);
     in_setup = 0;
 }
@@ -466,6 +486,10 @@ static void a_op(int argc, char ** argv)
         }
         t->nops = argc - 3;
         nthr++;
+        outf("ok");
+        out_end();
+    } else if (strcmp(argv[0], "cbreent") == 0 && argc == 1 && !started) {
+        cb_reent = 1;
         outf("ok");
         out_end();
     } else if (strcmp(argv[0], "start") == 0 && argc == 1 && !started) {
@@ -502,7 +526,10 @@ static void a_op(int argc, char ** argv)
         out_end();
     } else if (strcmp(argv[0], "end") == 0 && argc == 1 && started) {
         int t, i;
-        outf("end");
+        if (cb_reent) {
+            cstl_weak_ptr_reset(&cbw);      /* the callback's own weak reference goes last */
+        }
+        outf(cb_owner ? "end cbowner" : "end");
         for (t = 0; t < nthr; t++) {
             char v[MAXOBJ];
             outf(" ");
